@@ -8,6 +8,11 @@
 //       n draws of sampleUniform / sampleUniformNear / sampleGaussian from allocDefaultStateSampler()
 //       (or the SubspaceStateSampler of component k), satisfiesBounds of every output
 //       -> `n=<n> bad=<k> first=<state|->`                                            (implementation only)
+//   alias <n|g> <n> <dist> <space> <centre>
+//       alias-safety probe: the default sampler is called with state == near (the SAME pointer), as
+//       SubspaceStateSampler-like code and multilevel/GraphSampler.cpp (`sampleUniformNear(xRandom, xRandom, eps)`) do;
+//       the state is reset to the (in-bounds) centre before every call; satisfiesBounds of every output
+//       -> `n=<n> bad=<k> first=<state|->`                                            (implementation only)
 //   rebound <u|n|g> <d|sub <k>|wrapcmp|vss|scoped> <n> <dist> <stages> (<space_i> <centre_i>)*stages
 //       all space_i have the same structure and differ in their bounds only.  The space object is built from space_1
 //       and the sampler object(s) are allocated ONCE, under the bounds of stage 1; for every later stage the bounds of
@@ -433,6 +438,51 @@ int main()
                         sampler->sampleUniformNear(st, centre, dist);
                     else
                         sampler->sampleGaussian(st, centre, dist);
+                    if (!sp->satisfiesBounds(st))
+                    {
+                        if (bad == 0)
+                            first = vp::showState(sp, st);
+                        ++bad;
+                    }
+                }
+                sp->freeState(st);
+                sp->freeState(centre);
+                std::cout << "n=" << n << " bad=" << bad << " first=" << first << "\n";
+            }
+            else if (op == "alias")
+            {
+                if (t.size() < 5)
+                    throw vp::ParseError("alias");
+                std::string kind = t[i++];
+                if (kind != "n" && kind != "g")
+                    throw vp::ParseError("kind");
+                unsigned long n = vp::needN(t, i);
+                double dist = vp::needF(t, i);
+                auto sp = vp::parseSpace(t, i);
+                ob::State *centre = sp->allocState();
+                ob::State *st = sp->allocState();
+                try
+                {
+                    vp::parseStateInto(sp.get(), centre, t, i);
+                    if (i != t.size())
+                        throw vp::ParseError("trailing");
+                }
+                catch (...)
+                {
+                    sp->freeState(st);
+                    sp->freeState(centre);
+                    throw;
+                }
+                auto sampler = sp->allocDefaultStateSampler();
+                unsigned long bad = 0;
+                std::string first = "-";
+                for (unsigned long k = 0; k < n; ++k)
+                {
+                    sp->copyState(st, centre);
+                    if (kind == "n")
+                        sampler->sampleUniformNear(st, st, dist);
+                    else
+                        sampler->sampleGaussian(st, st, dist);
                     if (!sp->satisfiesBounds(st))
                     {
                         if (bad == 0)
